@@ -292,6 +292,27 @@ def c10_streams(rng, tier, budget):
         for c in hs:
             st.cmp(a, c)
     yield "pairs", st
+    # hash / ordering of the PARENT evaluated first, then a derivation, then the derived URL against a freshly parsed equal URL, its
+    # pickled twin and the parent: a derived object must not inherit anything the comparison methods memoise (hash, sort key)
+    st2 = Stream()
+    mods = [("with_fragment", [enc("top")]), ("with_fragment", ["~"]), ("with_query", ["S" + enc("k=v")]), ("with_query", ["N"]), ("with_path", [enc("/z"), "F", "F", "F"]),
+            ("with_path", [enc("/z"), "F", "T", "T"]), ("with_name", [enc("n"), "T", "T"]), ("with_suffix", [enc(".s"), "T", "T"]), ("with_host", [enc("o.example")]),
+            ("with_port", ["8081"]), ("with_user", [enc("w")]), ("with_password", [enc("w")]), ("with_scheme", [enc("https")]), ("truediv", [enc("c")]), ("parent", []),
+            ("origin", []), ("relative", []), ("extend_query", ["S" + enc("z=1")]), ("update_query", ["S" + enc("z=1")]), ("without_query_params", [enc("q")])]
+    for s0 in ["http://h/a/b.t?q=1#f", "http://u:p@h:8080/a?q=1", "http://h", "/a/b?q=1#f", "http://h/a#f"]:
+        for i, (nm, args) in enumerate(mods):
+            b0 = st2.new(s0 + ("" if "#" in s0 else "#r%d" % i))       # a fresh parent per derivation (the constructor cache would share it otherwise)
+            st2.obs_all(b0, ["val"])
+            st2.cmp(b0, b0)                                             # evaluates hash and the ordering key of the parent
+            d = st2.mod(b0, nm, *args)
+            st2.obs_all(d, ["val"])
+            t = st2.rt(d)
+            k = st2.pkl(d)
+            st2.obs_all(t, ["val"])
+            st2.obs_all(k, ["val"])
+            for x, y in ((d, t), (t, d), (d, k), (d, b0), (b0, d), (d, d)):
+                st2.cmp(x, y)
+    yield "derived-after-hash", st2
 
 
 def c10_oracle(full, io, b):
@@ -392,6 +413,11 @@ def c11_oracle(full, io, b):
                 cls = "frame"
                 if name == "with_host" and "%" in dec(f[4]):
                     cls = "host-zone-injection"
+                srh = v.get(src, "raw_host")
+                if srh not in (None, "~") and ("[" in dec(srh) or "]" in dec(srh)):
+                    # the base is one of the malformed-bracket authorities split_url accepts (listed for C03 / C09): what the constructor
+                    # pre-computed for it is not what the stored authority splits into, and a derived URL reads the stored authority
+                    cls = "malformed-brackets"
                 out.append(fail(v, h, c, f"{name} changed {c}: {pretty_out(a)} -> {pretty_out(r)}", cls, also=[v.n_of(src, c)]))
                 break
         # the targeted component reads back
